@@ -37,7 +37,7 @@ pub fn cases(ctx: &Ctx) -> Vec<Case> {
             }
         }
         // (b) interleaved programs with boundary sizes
-        let n = if ctx.quick() { 3000 } else { 40000 };
+        let n = if ctx.quick() { 16000 } else { 160000 };
         let sizes = boundary_sizes(2);
         for i in 0..n {
             let layers = LAYER_COMBOS[i % 4];
@@ -121,7 +121,7 @@ pub fn cases(ctx: &Ctx) -> Vec<Case> {
             }
         }
         // (f) interleaved programs, chunk-edge sizes
-        let n = if ctx.quick() { 120 } else { 3000 };
+        let n = if ctx.quick() { 640 } else { 8000 };
         let sizes = gen::chunk_sizes();
         for i in 0..n {
             let layers = LAYER_COMBOS[i % 4];
